@@ -274,6 +274,33 @@ pub fn data_end_of(d: &mut Driver, img: &[u8]) -> usize {
     }
     end
 }
+/// one table with several hundred one-entry data blocks; one byte damaged in each block of a LONG run of adjacent
+/// blocks (257..330 of them), the blocks before and behind the run intact: only the damaged blocks may be lost
+fn long_damage_run(d: &mut Driver, rep: &mut Report, rng: &mut Rng) {
+    let cfg = WCfg { cmp: CmpKind::Bytewise, block_size: 8, restart: 1, snappy: false, pol: PolKind::Bloom(10) };
+    let n = 400 + rng.below(40);
+    let es: Vec<(Vec<u8>, Vec<u8>)> = (0..n).map(|i| (format!("k{:04}", i).into_bytes(), vec![b'v'])).collect();
+    let c = match build_case(d, rep, &cfg, &es) {
+        Some(c) => c,
+        None => return,
+    };
+    let data_end = data_end_of(d, &c.img);
+    if data_end == 0 || data_end % n != 0 {
+        rep.count("long_run_case_skipped_layout");
+        return;
+    }
+    let stride = data_end / n;
+    let run = rng.range(257, 330);
+    let lo = rng.below(n - run - 5) + 1;
+    let mut im = c.img.clone();
+    for j in lo..lo + run {
+        im[j * stride + 4] ^= 0x20;
+    }
+    let what = format!("one byte damaged in each of the {} adjacent data blocks {}..{} of {}", run, lo, lo + run, n);
+    rep.case(&format!("long-damage-run {} {} {}", n, lo, run), true);
+    rep.count("long_runs_of_damaged_blocks");
+    c07_judge(d, rep, &c, &im, &what, data_end, lo * stride, (lo + run) * stride);
+}
 pub fn c07(ctx: &Ctx) -> Report {
     let base = Report::new("C07", "for each table of a family (compressed and not, one and many blocks / filters, random configurations): every byte offset of the file x XOR masks {01,10,80,ff} and zero / ff fill (quick: every offset of small tables, sampled offsets beyond 400 bytes), plus zeroed / randomised aligned ranges of 4..64 bytes; the altered file is opened, scanned, every stored key and one absent key per stored key looked up through the real reader and the model; judge (against the independent decoder's view of which blocks of the altered file still verify): open fails only if something other than data blocks was touched; scan = in-order selection of original entries containing every entry of every intact block; stored key -> original value or error; absent key -> never a value; non-trivial = alteration that changes the file; distinct by (image, alteration)");
     let n = per_thread(ctx, 64, 800);
@@ -281,6 +308,9 @@ pub fn c07(ctx: &Ctx) -> Report {
         if t == 0 {
             s3_crc(d, rep, rng, 100);
             s2_codec(d, rep, rng, 50);
+        }
+        if t == 1 || (ctx.thorough() && t < 4) {
+            long_damage_run(d, rep, rng);
         }
         for i in 0..n {
             let c = match gen_case(d, rep, rng, 10) {
@@ -807,7 +837,13 @@ pub fn c14(ctx: &Ctx) -> Report {
         for i in 0..n {
             let mut cfg = gen_wcfg(rng);
             cfg.block_size = *rng.pick(&[8usize, 20, 60, 4096]);
-            let es = gen_entries(rng, &cfg.cmp, 10, 12);
+            let mut es = gen_entries(rng, &cfg.cmp, 10, 12);
+            // one case per run with several hundred one-entry blocks: a window of more than 256 consecutive failing reads
+            let long_case = i == 0 && t == 1;
+            if long_case {
+                cfg = WCfg { cmp: CmpKind::Bytewise, block_size: 8, restart: 1, snappy: false, pol: PolKind::Bloom(10) };
+                es = (0..380).map(|i| (format!("k{:04}", i).into_bytes(), vec![b'v'])).collect();
+            }
             let c = match build_case(d, rep, &cfg, &es) {
                 Some(c) => c,
                 None => continue,
@@ -909,6 +945,17 @@ pub fn c14(ctx: &Ctx) -> Report {
                 }
                 schedules.push((format!("permanent failure from read {}", from), s));
             }
+            if long_case && nreads > 350 {
+                schedules.truncate(12);
+                let lo = 10 + rng.below(20);
+                let w = rng.range(257, 320);
+                let mut s = vec![Fault::None; lo];
+                for _ in 0..w {
+                    s.push(if rng.chance(1, 2) { Fault::IoError } else { Fault::Short(3) });
+                }
+                schedules.push((format!("window of {} consecutive faults from read {}", w, lo), s));
+                rep.count("long_windows_of_failing_reads");
+            }
             let orig: Vec<String> = c.es.iter().map(|e| show_kv(&Some(e.clone()))).collect();
             for (desc, sched) in schedules {
                 let s = Session { cap: 2, files: vec![c.img.clone()], faults: sched.clone(), ops: ops.clone() };
@@ -941,13 +988,27 @@ pub fn c14(ctx: &Ctx) -> Report {
                     // concatenation of a selection of whole blocks, in order
                     let mut pos = 0;
                     let mut ok = true;
+                    let mut kept = 0usize;
                     for b in blocks.iter() {
                         if scan.len() >= pos + b.len() && scan[pos..pos + b.len()] == b[..] && !b.is_empty() {
                             pos += b.len();
+                            kept += 1;
                         }
                     }
                     if pos != scan.len() {
                         ok = false;
+                    }
+                    if !strict && ok {
+                        // "omits only whole blocks whose read failed": every omitted block needs at least one failed
+                        // read DURING the scan (nothing is cached yet: the scan is the first thing after open)
+                        let nreads_of = |o: &String| -> usize { o.split('~').nth(1).map(|r| if r == "." { 0 } else { r.split('/').count() }).unwrap_or(0) };
+                        let before: usize = out[..base + 1].iter().map(nreads_of).sum();
+                        let during: usize = out[base + 1..base + 2 + c.es.len()].iter().map(nreads_of).sum();
+                        let failed = sched.iter().skip(before).take(during).filter(|f| **f != Fault::None).count();
+                        let omitted = blocks.iter().filter(|b| !b.is_empty()).count() - kept;
+                        if omitted > failed {
+                            rep.judge_fail(mk("a scan under read failures omits more blocks than reads failed (an intact, readable block is lost)", vec![("blocks_omitted", J::N(omitted as i64)), ("reads_failed_during_scan", J::N(failed as i64)), ("scan_entries", J::N(scan.len() as i64))]));
+                        }
                     }
                     if strict && scan != orig {
                         ok = false;
